@@ -1,7 +1,76 @@
-/- C08: model not built yet (stub so that the per-property driver links). -/
-import DastardV.Proto
+/-
+C08 — edge-multi triggering is block-boundary independent and never indexes outside.
+The harness runs the REAL pipeline twice on the same stream: cut into the generated blocks,
+and as one single block.  Oracle (on the implementation's outputs only):
+* the per-channel record sequences (frame, pre-trigger length, length, samples) are identical;
+* frames strictly increase (each edge yields at most one record);
+* fixed-length modes give full-length records (part of the C01 oracle, run here too);
+* variable-length records do not overlap and do not extend past the next trigger;
+* no crash (a `PANIC` output is a violation).
+-/
+import DastardV.Model.PipeJudge
 namespace DastardV.C08
+open Trig Pipe
 
-def runLine (_ts : List String) : Verdict := .bad "C08: model not built yet"
+/-- all records of channel `ch`, in emission order -/
+def recsOf (outs : List Out) (ch : Nat) : List Rec :=
+  outs.flatMap fun o => match o with | .recs r => r[ch]?.getD [] | _ => []
+
+def sameRec (a b : Rec) : Bool :=
+  a.frame == b.frame && a.npre == b.npre && a.data == b.data && a.signed == b.signed
+
+def firstMismatch : List Rec → List Rec → Option String
+  | [], [] => none
+  | a :: as, b :: bs =>
+    if sameRec a b then firstMismatch as bs
+    else some s!"many-block record (frame {a.frame} npre {a.npre} len {a.data.length}) vs one-block record (frame {b.frame} npre {b.npre} len {b.data.length})"
+  | a :: _, [] => some s!"many-block run has an extra record at frame {a.frame}"
+  | [], b :: _ => some s!"one-block run has an extra record at frame {b.frame}"
+
+def increasing : List Rec → Option String
+  | a :: b :: r => if a.frame < b.frame then increasing (b :: r) else some s!"frames {a.frame} then {b.frame}"
+  | _ => none
+
+/-- records neither overlap nor extend past the next trigger -/
+def noOverlap : List Rec → Option String
+  | a :: b :: r =>
+    let aEnd := a.frame - a.npre + a.data.length     -- one past the last sample of `a`
+    if aEnd > b.frame - b.npre then some s!"record at {a.frame} (npre {a.npre} len {a.data.length}) overlaps the record at {b.frame} (npre {b.npre})"
+    else if aEnd > b.frame then some s!"record at {a.frame} extends past the next edge at {b.frame}"
+    else noOverlap (b :: r)
+  | _ => none
+
+/-- is every trigger request of the case an edge-multi one in variable-length mode? -/
+def variableOnly (c : Case) : Bool :=
+  c.ops.all fun o => match o with | .trig r => r.ts.edgeMulti && r.compat.short && !r.compat.contaminated | _ => true
+
+def emtOnly (c : Case) : Bool :=
+  c.saved.isEmpty && c.ops.all fun o => match o with | .trig r => r.ts.edgeMulti | _ => true
+
+def chkC08 (c : Case) (outs : List Out) : Option String :=
+  firstSome (List.range c.nch) fun ch =>
+    let many := recsOf outs ch
+    match increasing many with
+    | some e => some s!"not-increasing ch{ch}: {e}"
+    | none =>
+    match (if variableOnly c then noOverlap many else none) with
+    | some e => some s!"variable-overlap ch{ch}: {e}"
+    | none =>
+    match c.outsOne with
+    | none => none
+    | some one =>
+      (firstMismatch many (recsOf one ch)).map fun e => s!"block-dependent ch{ch}: {e}"
+
+def runLine (ts : List String) : Verdict :=
+  match P.run parseCase ts with
+  | .error e => .bad e
+  | .ok c =>
+    let v := judgeWith "C08" c fun c outs =>
+      match chkC01 (initTruth c) c.ops outs with
+      | some e => some ("record-not-exact " ++ e)
+      | none => chkC08 c outs
+    match v with
+    | .ok tags => .ok (tags ++ (if c.outsOne.isSome then ["oneblock"] else []) ++ (if variableOnly c then ["variable"] else []))
+    | v => v
 
 end DastardV.C08
